@@ -75,4 +75,61 @@ SPECS = {
             'reference code under /verif/ref is trusted after its self-test',
         ],
     },
+    'C07': {
+        'property': 'C07',
+        'level': 'exploration',
+        'arms': [{
+            'name': 'create',
+            'module': 'scenarios.c07_create',
+            'fault_kinds': ['prov_raise', 'prov_false', 'prov_stale', 'bcast_lost_reply', 'db_commit_fail', 'crash'],
+            'tiers': {
+                'quick': {'runs': 400, 'budget_s': 110, 'run_timeout_s': 90, 'shrink_budget_s': 70,
+                          'params': {'focus': 'C07'}},
+                'thorough': {'runs': 12000, 'budget_s': 1500, 'run_timeout_s': 180, 'shrink_budget_s': 240,
+                             'params': {'focus': 'C07'}},
+            },
+        }],
+        'rule': ('one run = one seeded history of 10-36 wallet operations weighted towards transaction requests (send / send_to / '
+                 'sweep single and multi target / bumpfee / later send) on funded wallets of every kind, with fees explicit / '
+                 'automatic / named coming from simulated providers through the cache and clock; every returned transaction is '
+                 'checked as object and as serialization (reference parser, chain prevout values). Non-trivial: >= 5 operations '
+                 'and >= 1 successful library call; distinct = distinct event-log digests.'),
+        'state_measure': 'distinct (wallet kind, witness type, request api, #inputs bucket, #outputs bucket, fee argument, stage)',
+        'components': {'real': WALLET_REAL, 'stub': WALLET_STUB},
+        'assumptions': [
+            'fee-rate bounds are checked on the signed virtual size with a 25% band (the library decides on an estimated size)',
+            'change ownership is decided by reference BIP32 derivation of the wallet change chain (issued count + 6)',
+            'reference code under /verif/ref is trusted after its self-test',
+        ],
+    },
+    'C09': {
+        'property': 'C09',
+        'level': 'exploration',
+        'arms': [{
+            'name': 'keys',
+            'module': 'scenarios.c09_keys',
+            'fault_kinds': ['prov_raise', 'prov_false', 'prov_stale', 'db_commit_fail', 'crash', 'multi_handle', 'drop_handle',
+                            'gc_collect'],
+            'tiers': {
+                'quick': {'runs': 400, 'budget_s': 110, 'run_timeout_s': 90, 'shrink_budget_s': 70,
+                          'params': {'focus': 'C09'}},
+                'thorough': {'runs': 12000, 'budget_s': 1500, 'run_timeout_s': 180, 'shrink_budget_s': 240,
+                             'params': {'focus': 'C09'}},
+            },
+        }],
+        'rule': ('one run = one seeded history of 10-36 key operations (new_key / new_key_change / get_key / get_key_change, bulk '
+                 'get_keys / new_keys, explicit key_for_path / address_index, new_account, keys of another witness type in the same '
+                 'wallet, scan with funded gaps, mark-used, reopen / second handle / drop / gc, rebuild in a new database from the '
+                 'same master material with permuted cosigner keys, watch-only wallet from the exported account xpub) on HD, '
+                 'single-key, multisig and watch-only wallets over 5 networks x 3 witness types, with commit-failure and crash faults; '
+                 'every returned and listed key is compared with reference BIP32 derivation at the documented path. Non-trivial: '
+                 '>= 5 operations and >= 1 successful library call; distinct = distinct event-log digests.'),
+        'state_measure': 'n/a (digests only)',
+        'components': {'real': WALLET_REAL, 'stub': WALLET_STUB},
+        'assumptions': [
+            'path templates m/44|49|84\'/coin\'/account\'/change/index, m/45\'/cosigner/change/index, m/48\'/coin\'/account\'/1|2\'/change/index are written out in the oracle',
+            'network constants (version bytes, hrp, SLIP-44 coin types) come from /verif/ref/codec.py, cross-checked against the BIPs; bitcoinlib_test values are the library\'s own',
+            'an issuing call interrupted by a commit failure or crash is unacknowledged; the index model is re-read from keys() before every issuing call',
+        ],
+    },
 }
